@@ -330,7 +330,7 @@ let codec_case (line : string) : string =
                    let o = dres_str (decode (mk_cfg owned_arms (parse_ztab tl) []) data) in
                    Printf.sprintf "b=%s ; o=%s" b o
                | [] -> failwith "decb")
-  | "dec2" | "decb2" | "dect2" | "deca2" | "decf2" | "inflate" | "convh" | "hdr" -> "-"
+  | "dec2" | "decb2" | "dect2" | "deca2" | "decf2" | "decr2" | "decc2" | "decg2" | "inflate" | "convh" | "hdr" -> "-"
   | "hdrdec" ->
       let cache = ref [] in
       let outs = List.map (fun h ->
